@@ -577,11 +577,130 @@ pub fn real_emissions(want: &[&str], tier: Tier, deadline: Instant) -> Part {
     part
 }
 
+/// Part 4: the decoder has no memory. A datagram that fails to decode — after any number of its
+/// blocks were read — must not influence how the next datagram is decoded on the same thread.
+pub fn after_failure(want: &[&str]) -> Part {
+    let mut part = Part::new("wire/decode-after-a-failed-decode");
+    part.rule = "for every damaged datagram of a family (ACK / SYN-ACK of 1-3 members under 3 block layouts: the terminator byte removed, cut after each complete block, cut inside a block, a corrupted op tag in the last block, a wrong block tag, junk) followed on the same thread by each of 4 valid messages (ACK with other members, SYN-ACK, SYN, BadCluster): the damaged one is rejected without panic and the valid one then decodes to exactly its message, all bytes consumed; also two damaged ones in a row, then the valid one; non-trivial = pairs whose first datagram failed after at least one complete block".into();
+    let ids = ids();
+    let kv = |k: &str, v: &str, ver: u64, st: u8| Op::Kv { key: k.into(), value: v.into(), version: ver, status: st };
+    let big = text(9_000, Content::Mixed, 11);
+    let bad_sources: Vec<Msg> = vec![
+        Msg::Ack { ops: vec![Op::Node { id: ids[0].clone(), gc: 0, from: 0 }, kv("a", "1", 1, 0), kv("b", &big, 2, 0), kv("c", &big, 3, 2), Op::Node { id: ids[1].clone(), gc: 2, from: 0 }, kv("d", &big, 3, 0)] },
+        Msg::SynAck { digest: vec![DigestEntry { id: ids[0].clone(), heartbeat: 3, gc: 0, mv: 1 }], ops: vec![Op::Node { id: ids[3].clone(), gc: 0, from: 1 }, kv("x", &big, 2, 0), kv("y", "", 3, 1), Op::Node { id: ids[0].clone(), gc: 0, from: 0 }, Op::SetMax(4)] },
+        Msg::Ack { ops: vec![Op::Node { id: ids[2].clone(), gc: 0, from: 0 }, kv("only", "v", 1, 0)] },
+    ];
+    let goods: Vec<Msg> = vec![
+        Msg::Ack { ops: vec![Op::Node { id: ids[4].clone(), gc: 1, from: 0 }, kv("g1", "good", 2, 0), kv("g2", &big, 3, 0), Op::Node { id: ids[0].clone(), gc: 0, from: 5 }, kv("a", "other", 6, 0)] },
+        Msg::SynAck { digest: vec![DigestEntry { id: ids[1].clone(), heartbeat: 9, gc: 1, mv: 2 }], ops: vec![Op::Node { id: ids[1].clone(), gc: 1, from: 0 }, Op::SetMax(2)] },
+        Msg::Syn { digest: vec![DigestEntry { id: ids[2].clone(), heartbeat: 1, gc: 0, mv: 0 }], cluster_id: "c".into() },
+        Msg::BadCluster,
+    ];
+    // damaged datagrams
+    let mut bads: Vec<(String, Vec<u8>, bool)> = vec![("junk".into(), b"junk".to_vec(), false)];
+    for (si, src) in bad_sources.iter().enumerate() {
+        for (pname, plan) in [("auto", StreamPlan::default()), ("blocks-of-4000", StreamPlan { block_size: 4_000, ..StreamPlan::default() }), ("raw-blocks-of-4000", StreamPlan { block_size: 4_000, mode: codec::BlockMode::Raw, trailing_empty_block: false })] {
+            let bytes = codec::encode_with(src, plan);
+            let Ok(dec) = codec::decode(&bytes) else { continue };
+            let stream_start = bytes.len() - dec.stream_len;
+            // block boundaries of the stream
+            let mut bounds = vec![];
+            let mut pos = stream_start;
+            while pos < bytes.len() && bytes[pos] != 0 {
+                let n = u16::from_le_bytes([bytes[pos + 1], bytes[pos + 2]]) as usize;
+                pos += 3 + n;
+                bounds.push(pos);
+            }
+            let name = |what: &str| format!("message {si} [{pname}] {what}");
+            bads.push((name("without its terminator"), bytes[..bytes.len() - 1].to_vec(), !bounds.is_empty()));
+            for (bi, b) in bounds.iter().enumerate() {
+                if *b < bytes.len() - 1 {
+                    bads.push((name(&format!("cut after block {}", bi + 1)), bytes[..*b].to_vec(), true));
+                    bads.push((name(&format!("cut inside block {}", bi + 2)), bytes[..(*b + 5).min(bytes.len() - 1)].to_vec(), true));
+                }
+                // a block tag that does not exist, at the start of the next block / terminator
+                let mut wrong = bytes.clone();
+                wrong[*b] = 7;
+                bads.push((name(&format!("wrong block tag after block {}", bi + 1)), wrong, true));
+            }
+            if pname == "raw-blocks-of-4000" {
+                // raw blocks: the first byte of the stream's first op is its tag
+                if let Some(last) = bounds.iter().rev().nth(1).copied().or(Some(stream_start)) {
+                    let mut wrong = bytes.clone();
+                    if last + 3 < wrong.len() {
+                        wrong[last + 3] = 9; // an op tag that does not exist (if this byte starts an op) or a corrupted field
+                        bads.push((name("corrupted byte at the start of the last block"), wrong, bounds.len() > 1));
+                    }
+                }
+            }
+        }
+    }
+    part.bounds = json!({"damaged_datagrams": bads.len(), "valid_followers": goods.len()});
+    let good_bytes: Vec<(Vec<u8>, real::Meaning)> = goods.iter().map(|g| (codec::encode(g), real::meaning_of_ast(g, false).expect("valid"))).collect();
+    // everything on ONE thread: the decoder's state, if it had any, would be thread-local
+    let mut viols: Vec<Viol> = vec![];
+    let mut check_good = |ctx: &str, part: &mut Part, viols: &mut Vec<Viol>| {
+        for (gi, (gb, want_m)) in good_bytes.iter().enumerate() {
+            part.tally.inc("valid_decodes_after_a_failure");
+            match guarded(|| real::real_decode(gb)) {
+                Ok(Ok((m, used))) => {
+                    if real::meaning_of_real(&m) != *want_m || used != gb.len() {
+                        viols.push(Viol { what: format!("after {ctx}, valid message {gi} decodes to a different message (or leaves bytes)"), sig: "decoder-has-memory".into(), replay: json!({"engine":"wire","family":"after-failure","context":ctx,"valid":gi}) });
+                    }
+                }
+                Ok(Err(e)) => viols.push(Viol { what: format!("after {ctx}, valid message {gi} is rejected: {e}"), sig: "decoder-has-memory".into(), replay: json!({"engine":"wire","family":"after-failure","context":ctx,"valid":gi}) }),
+                Err(p) => viols.push(Viol { what: format!("after {ctx}, decoding valid message {gi} panicked: {p}"), sig: format!("panic:{}", short_loc(&p)), replay: json!({"engine":"wire","family":"after-failure","context":ctx,"valid":gi}) }),
+            }
+        }
+    };
+    let mut prev: Option<&(String, Vec<u8>, bool)> = None;
+    for bad in &bads {
+        part.tally.inc("damaged_datagrams");
+        match guarded(|| real::real_decode(&bad.1)) {
+            Err(p) => {
+                viols.push(Viol { what: format!("decoding a damaged datagram ({}) panicked: {p}", bad.0), sig: format!("panic:{}", short_loc(&p)), replay: json!({"engine":"wire","family":"after-failure","context":bad.0}) });
+            }
+            Ok(Ok(_)) => {
+                part.tally.inc("damaged_datagrams_that_still_decode");
+            }
+            Ok(Err(_)) => {
+                if bad.2 {
+                    part.tally.inc("failures_after_a_complete_block");
+                }
+            }
+        }
+        check_good(&format!("the damaged datagram `{}`", bad.0), &mut part, &mut viols);
+        if let Some(p) = prev {
+            let _ = guarded(|| real::real_decode(&p.1));
+            let _ = guarded(|| real::real_decode(&bad.1));
+            check_good(&format!("the damaged datagrams `{}` and `{}`", p.0, bad.0), &mut part, &mut viols);
+        }
+        prev = Some(bad);
+        if viols.len() > 20 {
+            break;
+        }
+    }
+    viols.sort_by_key(|v| v.what.len());
+    if want.contains(&"C08") {
+        for v in viols {
+            part.violation("C08", v.what, v.sig, v.replay);
+        }
+    }
+    part.states = part.tally.get("damaged_datagrams");
+    part.transitions = part.tally.get("valid_decodes_after_a_failure");
+    part.executions = part.transitions;
+    part.distinct_nontrivial = part.tally.get("failures_after_a_complete_block");
+    part.sample(json!({"damaged": "message 0 [blocks-of-4000] cut after block 2", "then": "valid ACK"}));
+    part.require("failures_after_a_complete_block");
+    part
+}
+
 pub fn run(property: &'static str, tier: Tier, started: Instant) -> Vec<Part> {
     let want = [property];
     vec![
         structural(&want, tier.pick(4, 5)),
         long_strings(&want, tier),
         real_emissions(&want, tier, started + std::time::Duration::from_secs(tier.pick(50, 1200))),
+        after_failure(&want),
     ]
 }
